@@ -196,6 +196,15 @@ func zzxAcceptStep(t *zzT) {
 	n.abi.verifyResult = int32(vr) - 1 // -1, 0, 1
 
 	contradicting := zzxRefContradicting(n, h)
+	// the stored finalized height may be ahead of what the BFT state currently reports (a block that
+	// raised it was removed again by a tie-break or a sync): arbitrary value at or above the stored one
+	if t.Param("finAhead", 1) == 1 {
+		cur, _ := n.chain.DataAccess().GetFinalizedHeight()
+		ahead := t.U8("finalizedAhead")
+		t.Assume(ahead < 4)
+		n.database.Set([]byte{27}, bytes.FromUint32(cur+uint32(ahead)))
+		db.ZZMonitorReset(n.database)
+	}
 	before := db.ZZDump(n.database)
 	finBefore, _ := n.chain.DataAccess().GetFinalizedHeight()
 
@@ -281,7 +290,21 @@ func zzxFilter(kvs []db.KeyValue, skip func(k []byte) bool) []db.KeyValue {
 func zzH_C04_delete_guard(t *zzT) { zzxDeleteStep(t) }
 
 func zzxDeleteStep(t *zzT) {
-	n := zzxNewNode(t, 2, 2, 1)
+	n := zzxNewNode(t, 2, 1, 2)
+	// the tip to be removed: with or without a payload
+	var tipTxs []*blockchain.Transaction
+	if t.Bool("tipHasTransaction") {
+		tipTxs = append(tipTxs, zzxTx(4, "token"))
+	}
+	if err := n.ex.processValidated(context.Background(), n.nextValid(1, tipTxs), false, false); err != nil {
+		t.Fail("setup: valid block rejected")
+	}
+	for len(n.chNew) > 0 {
+		<-n.chNew
+	}
+	for len(n.chFinal) > 0 {
+		<-n.chFinal
+	}
 	tipBlock := n.chain.LastBlock()
 	prevHeader, _ := n.chain.DataAccess().GetBlockHeaderByHeight(tipBlock.Header.Height - 1)
 	// arbitrary stored finalized height
@@ -312,6 +335,10 @@ func zzxDeleteStep(t *zzT) {
 	}
 	t.Assert(bytes.Equal(n.chain.LastBlock().Header.ID, prevHeader.ID), "the previous block is the tip again")
 	t.Assert(n.drained(n.chDelete) == 1, "one delete event")
+	for _, tx := range tipBlock.Transactions {
+		_, txStill := n.database.Get(bytes.Join([]byte{6}, tx.ID))
+		t.Assert(!txStill, "transactions of the removed block are gone")
+	}
 	_, hdrStill := n.database.Get(bytes.Join([]byte{3}, tipBlock.Header.ID))
 	_, idxStill := n.database.Get(bytes.Join([]byte{4}, bytes.FromUint32(tipBlock.Header.Height)))
 	_, diffStill := n.database.Get(bytes.Join([]byte{51}, bytes.FromUint32(tipBlock.Header.Height)))
